@@ -15,7 +15,7 @@ import z3
 
 from . import extract
 from .core import Undecided, PathEnd, Infeasible, EngineError
-from .values import (Sym, SInt, SBool, SReal, SFloat, FP64, SStr, SSet, SSeq, SObj, Opaque, Closure, BoundModel,
+from .values import (Sym, SInt, SBool, SReal, SFloat, FP64, SStr, SSet, SSeq, SObj, SOpt, Opaque, Closure, BoundModel,
                      is_sym, contains_sym, wrap, term, StrSort)
 
 
@@ -134,6 +134,7 @@ class Interp:
         self.loop_counter = []
         self.interpret_all = interpret_all
         self.noop_attr_calls = {"logger", "logging", "warnings"}
+        self.heap_writes = []  # (SObj, field) of every attribute store on a symbolic heap object
         self.called = set()  # (rel, qualname) of every repo function interpreted on this path
         self.native_called = set()
 
@@ -268,6 +269,7 @@ class Interp:
     # ------------------------------------------------------------------ calls --------------
     def call(self, fn, args=(), kwargs=None):
         kwargs = kwargs or {}
+        fn = self.resolve(fn)
         if isinstance(fn, Closure):
             key = (fn.file, fn.qualname)
             if key in self.contracts:
@@ -393,8 +395,14 @@ class Interp:
             raise Undecided(f"cannot instantiate {cls.__name__} symbolically")
         return obj
 
+    def resolve(self, v):
+        if isinstance(v, SOpt):
+            return None if self.ctx.branch(v.isnone) else v.value
+        return v
+
     # ------------------------------------------------------------------ attributes ----------
     def getattr(self, obj, name):
+        obj = self.resolve(obj)
         if isinstance(obj, SObj):
             if name in obj.fields:
                 return obj.fields[name]
@@ -464,7 +472,9 @@ class Interp:
         return obj.pycls
 
     def setattr(self, obj, name, value):
+        obj = self.resolve(obj)
         if isinstance(obj, SObj):
+            self.heap_writes.append((obj, name))
             obj.fields[name] = value
             return
         if isinstance(obj, Sym):
@@ -476,6 +486,7 @@ class Interp:
 
     # ------------------------------------------------------------------ truth & operators ---
     def truth(self, v):
+        v = self.resolve(v)
         if isinstance(v, SBool):
             return self.ctx.branch(v.t)
         if isinstance(v, SInt):
@@ -537,6 +548,13 @@ class Interp:
         return sym_compare(self, op, a, b)
 
     def identical(self, a, b):
+        if a is b:
+            return True
+        if isinstance(a, SOpt) and b is None:
+            return wrap(a.isnone)
+        if isinstance(b, SOpt) and a is None:
+            return wrap(b.isnone)
+        a, b = self.resolve(a), self.resolve(b)
         if a is b:
             return True
         if isinstance(a, Opaque) or isinstance(b, Opaque):
@@ -645,7 +663,14 @@ class Interp:
     def x_Import(self, node, env):
         import importlib
         for a in node.names:
-            mod = importlib.import_module(a.name)
+            ov = getattr(self, "import_overrides", {})
+            if a.name in ov:
+                env.assign(a.asname or a.name.split(".")[0], ov[a.name])
+                continue
+            try:
+                mod = importlib.import_module(a.name)
+            except ImportError as e:
+                raise PyRaise(e)
             if a.asname:
                 env.assign(a.asname, mod)
             else:
@@ -1232,12 +1257,64 @@ class Interp:
         r = self._lazy_comp(node, env)
         if r is not None:
             return r
+        r = self._filter_comp(node, env)
+        if r is not None:
+            return r
         out = []
         self._comp(node.generators, env, lambda e: out.append(self.eval(node.elt, e)))
         return out
 
     def e_GeneratorExp(self, node, env):
         return self.e_ListComp(node, env)
+
+    def _filter_comp(self, node, env):
+        """[f(x) for x in <symbolic-length seq> if c(x)] where c evaluates without forking:
+        either no element satisfies c (result empty, assumed for all indices) or some witness does."""
+        if len(node.generators) != 1 or not node.generators[0].ifs:
+            return None
+        g = node.generators[0]
+        src = getattr(self, "_pre_src", None)
+        src = self.eval(g.iter, env)
+        if not (isinstance(src, SSeq) and not z3.is_int_value(z3.simplify(src.len))):
+            self._pre = src
+            out = []
+            e = Env(env, env.fn_globals, "comp")
+            for x in self.iterate(src):
+                self.assign_target(g.target, x, e)
+                if all(self.truth(self.eval(c, e)) for c in g.ifs):
+                    out.append(self.eval(node.elt, e))
+            return out
+        ctx = self.ctx
+
+        def cond_at(idx):
+            e = Env(env, env.fn_globals, "comp")
+            self.assign_target(g.target, src.at(idx), e)
+            acc = []
+            before = len(ctx.trail)
+            for c in g.ifs:
+                v = self.eval(c, e)
+                if isinstance(v, bool):
+                    acc.append(z3.BoolVal(v))
+                elif isinstance(v, SBool):
+                    acc.append(v.t)
+                else:
+                    raise Undecided("filter condition over a symbolic sequence is not a plain boolean")
+            if len(ctx.trail) != before:
+                raise Undecided("filter condition over a symbolic sequence forks")
+            return z3.And(*acc) if len(acc) > 1 else acc[0], e
+        if ctx.choose(2, "filter") == 0:
+            u = z3.Int(ctx.fresh("u"))
+            c, _e = cond_at(u)
+            ctx.assume(z3.ForAll([u], z3.Implies(z3.And(u >= 0, u < src.len), z3.Not(c))))
+            return []
+        w = ctx.int("w")
+        ctx.assume(z3.And(w >= 0, w < src.len))
+        c, e = cond_at(w)
+        ctx.assume(c)
+        first = self.eval(node.elt, e)
+        n = ctx.int("nfiltered")
+        ctx.assume(z3.And(n >= 1, n <= src.len))
+        return SSeq(n, lambda i: Opaque("filtered-element"), name="filtered")
 
     def _lazy_comp(self, node, env):
         """[f(x) for x in <symbolic-length seq>] with a single generator and no filter: lazy map."""
